@@ -28,6 +28,17 @@ type Obligation struct {
 	Path      []string `json:"path,omitempty"`
 	Known     string   `json:"known_finding,omitempty"`
 	Exception string   `json:"exception,omitempty"`
+	// Sig: a name-free description of the construct (its effects). A reviewed
+	// exception may be keyed "rule:~sig" so that renaming the function or a
+	// variable does not turn the reviewed construct into an alarm.
+	Sig string `json:"sig,omitempty"`
+}
+
+func (o Obligation) SigKey() string {
+	if o.Sig == "" {
+		return ""
+	}
+	return o.Rule + ":~" + o.Sig
 }
 
 func (o Obligation) Key() string { return o.Rule + ":" + o.Construct }
@@ -83,8 +94,15 @@ func (r *Report) ApplyExceptions(ex map[string]string) (unused []string) {
 	used := map[string]bool{}
 	for i := range r.Obligations {
 		o := &r.Obligations[i]
-		if why, ok := ex[o.Key()]; ok {
+		why, ok := ex[o.Key()]
+		if ok {
 			used[o.Key()] = true
+		} else if sk := o.SigKey(); sk != "" {
+			if why, ok = ex[sk]; ok {
+				used[sk] = true
+			}
+		}
+		if ok {
 			if o.Decision == Violated || o.Decision == Undecided {
 				o.Exception = why
 				o.Reason = "EXCEPTION (" + why + "); rule said: " + o.Reason
